@@ -78,7 +78,7 @@ theorem ProvTie_products (s : Prov.Sess) (t : Nat) (hf : (findTask s.tasks t).is
     simp only [(slots_resolve s.w.fs tk.pprods).1, (slots_resolve s.w.fs tk.pprods).2]
 
 /-- `provisional.pytask_execute_task`: for a generator — load the kwargs, call it, fail if it defined nothing, collect what
-it defined, raise the first collection error if one of them cannot be collected (f1fcb9a), extend `session.tasks`, re-create the DAG unconditionally, return a result; nothing for other tasks. Session and
+it defined, raise the first collection error if one of them cannot be collected (f1fcb9a), raise if one has the name of an existing or another defined task (6571c4f), extend `session.tasks`, re-create the DAG unconditionally, return a result; nothing for other tasks. Session and
 raised flag agree with the model's `execImpl … "provisional"` for all arguments; so does the returned result whenever
 nothing was raised. -/
 theorem ProvTie_generator (Y : YieldFn) (F : BodyFn) (s : Prov.Sess) (t : Nat) :
@@ -99,7 +99,9 @@ theorem ProvTie_generator (Y : YieldFn) (F : BodyFn) (s : Prov.Sess) (t : Nat) :
         · simp [hk]
         · by_cases hu : (Y tk.id (received tk)).any (·.uncollectable) = true
           · simp [hk, hu]
-          · simp [hk, hu, invoke]
+          · by_cases hc : nameClash s.tasks (Y tk.id (received tk)) = true
+            · simp [hk, hu, hc, invoke]
+            · simp [hk, hu, hc, invoke]
     · simp [hg, genElseReturns]
 
 /-- The generator implementation of the `firstresult` hook `pytask_execute_task` returns a result whenever it does not
@@ -118,7 +120,9 @@ theorem ProvTie_generator_result (Y : YieldFn) (s : Prov.Sess) (t : Nat) (tk : P
       · simp [hk] at hnr
       · by_cases hu : (Y tk.id (received tk)).any (·.uncollectable) = true
         · simp [hk, hu] at hnr
-        · simp [hk, hu]
+        · by_cases hc : nameClash s.tasks (Y tk.id (received tk)) = true
+          · simp [hk, hu, hc, invoke] at hnr
+          · simp [hk, hu, hc, invoke]
   · simp [hg, genElseReturns]
 
 /-- `provisional.pytask_execute_task_process_report` (arms from extract_engine): only a generator whose report is still
